@@ -442,7 +442,7 @@ func lengthSub(r *core.Run, name string, cfg core.Cfg, maxLen int, fn func(s *co
 }
 
 // attribute entries: sequences of complete attribute entries (the second and later entries meet the merge paths)
-var attrEntries = []string{".b", "#i", "class=a", "class=\"c d\"", "class='e'", "id=x", "k=v", "k=1", "k=true", "k=[1,\"x\"]", "data-x=y", ".f", "title=t", "id=\"y z\"", "class=g"}
+var attrEntries = []string{".b", "#i", "class=a", "class=\"c d\"", "class='e'", "id=x", "k=v", "k=1", "k=true", "k=[1,\"x\"]", "data-x=y", ".f", "title=t", "id=\"y z\"", "class=g", "tabindex=12345", "data-n=7", "data-f=1.5", "lang=en"}
 
 func attrEntrySub(r *core.Run, name string, cfg core.Cfg, n int, fn func(s *core.Sub, cv *core.Conv, w []byte)) {
 	toks := make([]string, len(attrEntries))
